@@ -72,7 +72,7 @@ pub fn dispatch(name: &str, ctx: &Ctx) -> Option<Outcome> {
         "c07" => c07::run(ctx),
         "c08" => c08::run(ctx),
         "c09" => c09::run(ctx),
-        "c10" => c10::run(ctx),
+        "c10" => if ctx.args.str("part", "all") == "serial" { serialchk::run(ctx, "c10") } else { c10::run(ctx) },
         "c12" => c12::run(ctx),
         "c13" => c13::run(ctx),
         "c14" => c14::run(ctx),
